@@ -1,1 +1,96 @@
-From DV Require Import Prelude.Base Model.Node.
+(* C09 — an application's answer goes back over the connection of the requester, once
+   Statements copied from the proof files; each is closed by `exact`. *)
+From DV Require Prelude.Base Model.Ids Proofs.IdsP Model.Node Proofs.NodeC.
+From Coq Require String List Lia Bool Arith ZArith.
+
+Module FromNodeC.
+Import DV.Prelude.Base DV.Model.Ids DV.Proofs.IdsP DV.Model.Node DV.Proofs.NodeC.
+Local Open Scope Z_scope.
+
+(* shape of the reaction to Application.send_answer: NotRoutable, or the answer handed to one
+   ready connection under whose host identity the pair was waiting, followed only by what the
+   I/O thread does on its own (writes, closes, dials, its own CER / DWR) *)
+Theorem C09_answer_shape n ds i a n' outs :
+  step n ds (EAppAnswer i a) = (n', outs) ->
+  outs = [ONotRoutable] \/
+  exists cid c l rest,
+    outs = OQueue cid a :: rest /\ List.Forall (sysout (pmap n)) rest /\
+    List.In c (n_conns n) /\ c_id c = cid /\ is_ready_state (c_state c) = true /\
+    List.In (c_host c, l) (n_peer_waiting n) /\ mem_zz (o_hbh a, o_e2e a) l = true.
+Proof. exact (@NodeC.C09_answer_shape n ds i a n' outs). Qed.
+
+(* C09: an answer handed to a connection is the submitted one, goes to a ready connection under
+   whose host identity its (hop-by-hop, end-to-end) pair was waiting, and at most one answer is
+   handed out (o_req m = false separates it from the CER / DWR of the I/O thread) *)
+Theorem C09_to_requester n ds i a n' outs cid m :
+  step n ds (EAppAnswer i a) = (n', outs) ->
+  List.In (OQueue cid m) outs -> o_req m = false ->
+  m = a /\
+  (exists c l, List.In c (n_conns n) /\ c_id c = cid /\ is_ready_state (c_state c) = true /\
+               List.In (c_host c, l) (n_peer_waiting n) /\ mem_zz (o_hbh a, o_e2e a) l = true) /\
+  (List.length (List.filter is_answer_queue outs) <= 1)%nat /\
+  (forall cid' m', List.In (OQueue cid' m') outs -> o_req m' = false -> cid' = cid /\ m' = m).
+Proof. exact (@NodeC.C09_to_requester n ds i a n' outs cid m). Qed.
+
+(* C09: waiting entries only come from delivered requests *)
+Theorem C09_entry_from_delivery n ds e n' outs h hbh e2e :
+  step n ds e = (n', outs) ->
+  ~ pw_has (n_peer_waiting n) h (hbh, e2e) -> pw_has (n_peer_waiting n') h (hbh, e2e) ->
+  exists cid ms c0 i m,
+    e = ERecv cid ms /\ get_conn n cid = Some c0 /\ List.In m ms /\ List.In (ODeliver i m) outs /\
+    m_hbh m = hbh /\ m_e2e m = e2e.
+Proof. exact (@NodeC.C09_entry_from_delivery n ds e n' outs h hbh e2e). Qed.
+
+(* C09: a pair enters a host's waiting list only when a request carrying it is delivered on a
+   connection whose host identity is that host *)
+Theorem C09_entry_host n cid m n' outs h k :
+  recv_app_request n cid m = (n', outs) ->
+  ~ pw_has (n_peer_waiting n) h k -> pw_has (n_peer_waiting n') h k ->
+  exists c i, get_conn n cid = Some c /\ c_host c = h /\ outs = [ODeliver i m] /\ k = (m_hbh m, m_e2e m).
+Proof. exact (@NodeC.C09_entry_host n cid m n' outs h k). Qed.
+
+(* C09: an answer whose pair is recorded nowhere, or whose recorded host has no connection, or
+   whose connection is not ready, is refused and nothing is handed to anybody *)
+Theorem C09_gone_is_error n ds i a :
+  (forall h l, List.In (h, l) (n_peer_waiting n) -> mem_zz (o_hbh a, o_e2e a) l = false) \/
+  (exists host l,
+      List.find (fun e => mem_zz (o_hbh a, o_e2e a) (snd e)) (n_peer_waiting n) = Some (host, l) /\
+      ((forall c, List.In c (n_conns n) -> c_host c <> host) \/
+       (exists c, List.find (fun c => String.eqb (c_host c) host) (n_conns n) = Some c /\
+                  is_ready_state (c_state c) = false))) ->
+  snd (step n ds (EAppAnswer i a)) = [ONotRoutable].
+Proof. exact (@NodeC.C09_gone_is_error n ds i a). Qed.
+
+(* C09: once submitted, the pair is gone from that host's list, immediately and after the step *)
+Theorem C09_second_fails n a cid n1 :
+  route_answer n a = (Some cid, n1) ->
+  exists c, List.In c (n_conns n) /\ c_id c = cid /\
+            (forall l, List.In (c_host c, l) (n_peer_waiting n1) -> mem_zz (o_hbh a, o_e2e a) l = false) /\
+            forall ds i n' outs, step n ds (EAppAnswer i a) = (n', outs) ->
+                                 ~ pw_has (n_peer_waiting n') (c_host c) (o_hbh a, o_e2e a).
+Proof. exact (@NodeC.C09_second_fails n a cid n1). Qed.
+
+(* ... consequently a second submission of the same answer is refused *)
+Theorem C09_second_is_error n ds i a n' outs cid n1 :
+  route_answer n a = (Some cid, n1) ->
+  step n ds (EAppAnswer i a) = (n', outs) ->
+  (forall c h, List.In c (n_conns n) -> c_id c = cid -> h <> c_host c ->
+               ~ pw_has (n_peer_waiting n) h (o_hbh a, o_e2e a)) ->
+  forall ds2 j, snd (step n' ds2 (EAppAnswer j a)) = [ONotRoutable].
+Proof. exact (@NodeC.C09_second_is_error n ds i a n' outs cid n1). Qed.
+
+(* C09: closing a connection drops every waiting list filed under its host identity *)
+Theorem C09_removed_on_close n cid r c :
+  get_conn n cid = Some c ->
+  forall l, ~ List.In (c_host c, l) (n_peer_waiting (remove_conn n cid r)).
+Proof. exact (@NodeC.C09_removed_on_close n cid r c). Qed.
+End FromNodeC.
+
+Print Assumptions FromNodeC.C09_answer_shape.
+Print Assumptions FromNodeC.C09_to_requester.
+Print Assumptions FromNodeC.C09_entry_from_delivery.
+Print Assumptions FromNodeC.C09_entry_host.
+Print Assumptions FromNodeC.C09_gone_is_error.
+Print Assumptions FromNodeC.C09_second_fails.
+Print Assumptions FromNodeC.C09_second_is_error.
+Print Assumptions FromNodeC.C09_removed_on_close.
